@@ -254,6 +254,19 @@ def s1(chk: Check, proj: Project, w) -> None:
     mi, fi = proj.func("component", "Component.__init__")
     own = [st for st in stmts(fi) if isinstance(st, (ast.Assign, ast.AnnAssign)) and any(norm(t) == SELF_SA for t, _v in assign_targets(st))]
     fresh = len(own) == 1 and own[0] in fi.body and isinstance(own[0].value, (ast.Call, ast.List)) and not any(isinstance(x, ast.Name) for x in ast.walk(own[0].value) if x is not getattr(own[0].value, "func", None))
+    how = "created fresh in Component.__init__"
+    if not own:
+        # alternative: a property that lazily creates the container on an instance-owned threading.local holder
+        cm0 = proj.mod("component")
+        ccls = cm0.cls("Component")
+        prop = next((x for x in ccls.body if isinstance(x, ast.FunctionDef) and x.name == SA and any((dotted(d) or "") == "property" for d in x.decorator_list)), None)
+        holders = {t.attr for st in stmts(fi) for t, v in assign_targets(st) if isinstance(t, ast.Attribute) and norm(t.value) == "self" and isinstance(v, ast.Call) and (dotted(v.func) or "").endswith("local")}
+        if prop is not None:
+            uses_holder = any(isinstance(y, ast.Attribute) and norm(y.value) == "self" and y.attr in holders for y in ast.walk(prop))
+            creates = any(isinstance(y, ast.Call) and norm(y.func) in ("deque", "list", "collections.deque") and not y.args for y in ast.walk(prop))
+            other_src = [y for y in ast.walk(prop) if isinstance(y, ast.Attribute) and norm(y.value) in ("cls", "type(self)", "self.__class__")]
+            fresh = uses_holder and creates and not other_src
+            how = "a property that creates it per thread on a threading.local owned by the instance"
     shared = []
     for mm2 in proj.modules.values():
         for c in ast.walk(mm2.tree):
@@ -263,7 +276,7 @@ def s1(chk: Check, proj: Project, w) -> None:
                         shared.append((mm2, st))
     okown = fresh and not shared
     chk.ob("S1", "component:Component._metadata_stack:per-instance", shared[0][0].loc(shared[0][1]) if shared else (mi.loc(own[0]) if own else mi.loc(fi)), okown,
-           "the metadata stack is created fresh in Component.__init__ and bound in no class body" if okown else
+           f"the metadata stack is {how} and bound in no class body" if okown else
            "the metadata stack behind Component.id is not owned by the instance (bound in a class body / not created fresh in __init__): all instances push onto one stack, so a component handed to a child, or two threads, read each other's id")
     end = "[-1]" if pushes and pushes[0].func.attr == "append" else "[0]"
     for prop in ("id", "input", "is_filled"):
